@@ -68,6 +68,13 @@ def generate(seed, tier):
         tcls["blocks"].append({"n": "cg", "stmts": [progs.EXPR(progs.BIN(
             rng.choice(["<=", ">=", "!="]), progs.F(f["n"]), {"t": "g", "n": gsa["n"]}))]})
         prog["globals"] = sa
+    # a bit-select whose index is a non-random field: the selected bit moves with the field
+    wide = [f for f in tcls["fields"] if f["k"] == "s" and f.get("r") and not f["s"] and f["w"] >= 4]
+    if wide and rng.random() < 0.4:
+        f = rng.choice(wide)
+        tcls["fields"].append({"n": "bsel", "k": "s", "w": 2, "s": False, "r": False, "i": rng.randint(0, 3)})
+        tcls["blocks"].append({"n": "cps", "stmts": [progs.EXPR(progs.BIN(
+            "==", {"t": "ps", "p": [f["n"]], "bit_f": ["bsel"]}, progs.LIT(rng.randint(0, 1))))]})
     rec = {"prop": ID, "seed": seed, "prog": prog, "sa": sa,
            "probe_seed": st.fault.randint(0, 1 << 30)}
     rec["ops"] = gen_ops(st, prog, g, rl_field, sa, tier)
